@@ -892,6 +892,7 @@ impl rustc_driver::Callbacks for Cb {
                 continue;
             }
             let self_ty = tcx.type_of(did).instantiate_identity().skip_norm_wip();
+            let mut trait_canon = J::Null;
             let (trait_path, trait_args) = match tcx.impl_opt_trait_ref(did) {
                 Some(tr) => {
                     let tr = tr.instantiate_identity().skip_norm_wip();
@@ -905,6 +906,11 @@ impl rustc_driver::Callbacks for Cb {
                             _ => None,
                         })
                         .collect();
+                    trait_canon = s(format!(
+                        "{}{}",
+                        tcx.crate_name(tr.def_id.krate),
+                        tcx.def_path(tr.def_id).to_string_no_crate_verbose()
+                    ));
                     (s(cx.path(tr.def_id)), J::A(args))
                 }
                 None => (J::Null, J::A(vec![])),
@@ -934,6 +940,7 @@ impl rustc_driver::Callbacks for Cb {
                 ("path", s(cx.path(did))),
                 ("def", cx.did(did)),
                 ("trait", trait_path),
+                ("trait_canon", trait_canon),
                 ("trait_args", trait_args),
                 ("self_ty", cx.ty(self_ty)),
                 ("generics", cx.generics(did)),
